@@ -69,6 +69,10 @@ where
         // restore sanitized settings to their (likely) original values
         desanitize_settings(&mut json_data.settings);
 
+        // the solver constructor panics on (or indexes with) inconsistent
+        // data, so a malformed file must be rejected here with an error
+        validate_json_data(&json_data, settings.as_ref())?;
+
         // create a solver object
         let P = json_data.P;
         let q = json_data.q;
@@ -92,4 +96,57 @@ fn desanitize_settings<T: FloatT>(settings: &mut DefaultSettings<T>) {
     if settings.time_limit == f64::MAX {
         settings.time_limit = f64::INFINITY;
     }
+}
+
+fn validate_json_data<T: FloatT>(
+    data: &JsonProblemData<T>,
+    settings: Option<&DefaultSettings<T>>,
+) -> Result<(), io::Error> {
+    fn invalid<E: std::fmt::Display>(what: &str, e: E) -> io::Error {
+        io::Error::new(io::ErrorKind::InvalidData, format!("{}: {}", what, e))
+    }
+
+    data.P.check_format().map_err(|e| invalid("P", e))?;
+    data.A.check_format().map_err(|e| invalid("A", e))?;
+
+    let (m, n) = (data.b.len(), data.q.len());
+    if data.A.m != m || data.A.n != n || data.P.m != n || data.P.n != n {
+        return Err(invalid("problem data", "incompatible dimensions"));
+    }
+
+    // cone dimensions and parameters.  No cone can be larger than m,
+    // which also keeps the row count below from overflowing.
+    let mut rows: usize = 0;
+    for cone in data.cones.iter() {
+        let ok = match cone {
+            SupportedConeT::ZeroConeT(dim)
+            | SupportedConeT::NonnegativeConeT(dim)
+            | SupportedConeT::SecondOrderConeT(dim) => *dim <= m,
+            SupportedConeT::ExponentialConeT() => true,
+            SupportedConeT::PowerConeT(α) => *α > T::zero() && *α < T::one(),
+            SupportedConeT::GenPowerConeT(α, dim2) => {
+                α.len() <= m
+                    && *dim2 <= m
+                    && α.iter().all(|r| *r > T::zero())
+                    && (T::one() - α.sum()).abs()
+                        < (T::epsilon() * α.len().as_T() * (0.5).as_T())
+            }
+            #[cfg(feature = "sdp")]
+            SupportedConeT::PSDTriangleConeT(dim) => *dim <= m,
+        };
+        if !ok {
+            return Err(invalid("cones", "invalid cone dimension or parameter"));
+        }
+        rows = rows.saturating_add(cone.nvars());
+    }
+    if rows != m {
+        return Err(invalid("cones", "dimensions inconsistent with constraints"));
+    }
+
+    settings
+        .unwrap_or(&data.settings)
+        .validate()
+        .map_err(|e| invalid("settings", e))?;
+
+    Ok(())
 }
